@@ -23,6 +23,14 @@ def apply(d, wt, change):
         wt.rename_one("lib", "lib_old")
         os.mkdir(os.path.join(d, "lib")); wt.add(["lib"], ids=[b"lib2-id"])
         wt.rename_one("lib_old/x", "lib/x")
+    elif change == "edit":
+        open(os.path.join(d, "f"), "w").write("F edited\n")
+    elif change == "edit_x":
+        open(os.path.join(d, "lib", "x"), "w").write("X edited\n")
+    elif change == "delete":
+        wt.remove(["f"], keep_files=False)
+    elif change == "add":
+        open(os.path.join(d, "newfile"), "w").write("N\n"); wt.add(["newfile"], ids=[b"new-id"])
     elif change == "none":
         return
     wt.commit(change, committer="t <t@e.x>", allow_pointless=True)
@@ -33,15 +41,16 @@ def state(d, wt):
     with wt.lock_read():
         for p, e in wt.iter_entries_by_dir():
             if e.kind == "file":
-                out[e.file_id] = (p, bool(os.stat(os.path.join(d, p)).st_mode & stat.S_IXUSR))
+                ab = os.path.join(d, p)
+                out[e.file_id] = (p, bool(os.stat(ab).st_mode & stat.S_IXUSR), open(ab, "rb").read()) if os.path.isfile(ab) else (p, None, None)
             elif p and e.file_id != b"dir-id":
-                out[e.file_id] = (p, None)
+                out[e.file_id] = (p, None, None)
     return out
 
 
 tried = 0
 try:
-    changes = ["none", "rename", "move", "exec", "rename2", "swapdir"]
+    changes = ["none", "rename", "move", "exec", "rename2", "swapdir", "edit", "edit_x", "delete", "add"]
     for tc, oc in itertools.product(changes, repeat=2):
         tried += 1
         d = os.path.join(base, "t%d" % tried); os.mkdir(d)
@@ -69,7 +78,7 @@ try:
             verdict(True, "identical changes on both sides were not a conflict-free no-op", input=dict(this=tc, other=oc), observed=str((merged, conflicts)))
         if {tc, oc} == {"rename", "exec"} or {tc, oc} == {"move", "exec"}:
             exp = ("g" if "rename" in (tc, oc) else "dir/f", True)
-            if merged.get(b"f-id") != exp or conflicts:
+            if (merged.get(b"f-id") or (None, None))[:2] != exp or conflicts:
                 verdict(True, "disjoint changes (path on one side, executable bit on the other) were not both taken", input=dict(this=tc, other=oc), observed=str((merged, conflicts)))
         if {tc, oc} == {"rename", "rename2"} and not conflicts:
             verdict(True, "different renames on the two sides were merged without reporting a conflict", input=dict(this=tc, other=oc), observed=str(merged))
